@@ -316,6 +316,8 @@ class NP:
         return self.zeros_like(a, dtype=dtype, **k)
 
     def array(self, a, dtype=None, copy=True, **k):
+        if isinstance(a, SymArray) and not copy:
+            return a
         if is_sym(a) or (isinstance(a, (list, tuple)) and any(is_sym(x) for x in a)):
             r = np.array(a, dtype=object, copy=True)
             return _wrap_obj(_elem(to_S)(r)) if r.ndim else to_S(r.item())
